@@ -59,6 +59,9 @@ type RegOp struct {
 	Wait string `json:"wait,omitempty"`
 	// DeadlineUs > 0: the helper call runs under a context with this (generous) deadline.
 	DeadlineUs int `json:"deadline_us,omitempty"`
+	// Mask (getinfo) != 0: only the destinations whose bit is set are passed
+	// (vendor 1, product 2, version 4, url 8, interfaces 16); the others are nil.
+	Mask int `json:"mask,omitempty"`
 }
 
 func (s *RegScenario) Cfg() sim.Config { return s.Config }
@@ -214,13 +217,25 @@ func (s *RegScenario) Setup(k *sim.Kernel) {
 					vendor, product, version, url := "stale", "stale", "stale", "stale"
 					ifaces := []string{"stale"}
 					o.Call = sim.Rec("getinfo.call", "")
-					err := conn.GetInfo(ctx, &vendor, &product, &version, &url, &ifaces)
+					// (a caller passes nil for what it does not want to know)
+					ptr := func(bit uint, p *string) *string {
+						if op.Mask != 0 && op.Mask&(1<<bit) == 0 {
+							return nil
+						}
+						return p
+					}
+					pi := &ifaces
+					if op.Mask != 0 && op.Mask&16 == 0 {
+						pi = nil
+					}
+					err := conn.GetInfo(ctx, ptr(0, &vendor), ptr(1, &product), ptr(2, &version), ptr(3, &url), pi)
 					if err != nil {
 						o.Failed, o.Out = true, errClass(err)
 						conn.Close()
 						conn = nil
 					} else {
 						o.Out = mustJSON([]interface{}{vendor, product, version, url, ifaces})
+						o.Name = sp(op.Mask)
 					}
 				case "getdesc":
 					if !connect() {
@@ -486,8 +501,19 @@ func (s *RegScenario) regModel() porcupine.Model {
 				return true, ns
 			case "getinfo":
 				names := append([]string{"org.varlink.service"}, tableNames(st.table)...)
-				want := mustJSON(append(append([]interface{}{}, ident...), names))
-				return out == want, st
+				full := append(append([]interface{}{}, ident...), names)
+				if mask := atoi(in.name); mask != 0 {
+					// destinations that were not passed keep what they held
+					for bit := 0; bit < 4; bit++ {
+						if mask&(1<<uint(bit)) == 0 {
+							full[bit] = "stale"
+						}
+					}
+					if mask&16 == 0 {
+						full[4] = []string{"stale"}
+					}
+				}
+				return out == mustJSON(full), st
 			case "call":
 				reg := map[string]bool{}
 				for _, n := range tableNames(st.table) {
@@ -572,7 +598,7 @@ func (s *RegScenario) Check(k *sim.Kernel) []sim.Violation {
 			hist = append(hist, porcupine.Operation{ClientId: o.Actor, Input: regInput{"reg", o.Name, o.Desc}, Call: int64(o.Call), Output: o.Out, Return: ret})
 		case "getinfo":
 			if !o.Failed {
-				hist = append(hist, porcupine.Operation{ClientId: o.Actor, Input: regInput{op: "getinfo"}, Call: int64(o.Call), Output: o.Out, Return: ret})
+				hist = append(hist, porcupine.Operation{ClientId: o.Actor, Input: regInput{op: "getinfo", name: o.Name}, Call: int64(o.Call), Output: o.Out, Return: ret})
 			}
 		case "getdesc":
 			if !o.Failed {
@@ -786,7 +812,7 @@ func (s *RegScenario) firstOddity(hist []porcupine.Operation) string {
 		case "getinfo":
 			var v []interface{}
 			json.Unmarshal([]byte(o), &v)
-			if len(v) == 5 && (v[0] != s.Service.Vendor || v[1] != s.Service.Product || v[2] != s.Service.Version || v[3] != s.Service.URL) {
+			if len(v) == 5 && atoi(in.name) == 0 && (v[0] != s.Service.Vendor || v[1] != s.Service.Product || v[2] != s.Service.Version || v[3] != s.Service.URL) {
 				return "getinfo-identity"
 			}
 		}
@@ -995,6 +1021,9 @@ func genC13(seed uint64, tier string) Scenario {
 					}
 				case k < 4:
 					op.Op = "getinfo"
+					if g.Pct(20) {
+						op.Mask = 1 + g.IntN(31)
+					}
 				case k < 8:
 					op.Op, op.Name = "getdesc", askable()
 				case k < 9 && s.Resolver != nil:
